@@ -123,6 +123,8 @@ def plan_seq(pid, tier, seed, ncpu):
             # more expired entries pending than one maintenance batch (100 / 500) purges
             js += seq_jobs(bindirs["dbg"], workdir, known, pid, "bulk", scale(tier, 240, 6000), 1300, seed, 4, prefix="bulk")
         # concurrent clauses
+        if pid == "C10":
+            js += con_jobs(bindirs["dbg0"], workdir, known, pid, "chase", seed + 9, 2, programs=scale(tier, 240, 6000), schedules=3, variant="dbg0")
         if pid in ("C03", "C10"):
             # the release profile has no debug_assert: counter drift shows as drift, not as a panic
             js += con_jobs(bindirs["rel"], workdir, known, pid, "baton", seed + 2, 2, programs=scale(tier, 1600, 40000), schedules=scale(tier, 10, 20), variant="rel")
@@ -140,6 +142,8 @@ def plan_seq(pid, tier, seed, ncpu):
             js += con_jobs(bindirs["rel"], workdir, known, pid, "baton", seed + 5, 2, programs=scale(tier, 1200, 30000), schedules=10, variant="rel")
             js += con_jobs(bindirs["rel"], workdir, known, pid, "chase", seed + 5, 2, programs=scale(tier, 200, 6000), schedules=3, variant="rel")
             js += con_jobs(bindirs["dbg"], workdir, known, pid, "chase", seed, 1, programs=scale(tier, 100, 3000), schedules=3)
+            # unoptimized build: windows inside one function (two loads of a weight) are far wider
+            js += con_jobs(bindirs["dbg0"], workdir, known, pid, "chase", seed + 9, 3, programs=scale(tier, 360, 6000), schedules=3, variant="dbg0")
             if tier == "thorough":
                 js += con_jobs(bindirs["rel"], workdir, known, pid, "burstn", seed + 5, 4, rounds=200, variant="rel")
         if pid == "C16":
@@ -166,7 +170,7 @@ def plan_seq(pid, tier, seed, ncpu):
                       "key exactly once, value written by an insert that began before the iteration ended and not replaced by a write that completed before it began.")
     fl = {k: int(v * (1 if tier == "quick" else min(mult, 10))) for k, v in floors.items()}
     fl.update(extra_floors)
-    variants = ["dbg"] + (["rel"] if pid in ("C03", "C04", "C10") else [])
+    variants = ["dbg"] + (["rel"] if pid in ("C03", "C04", "C10") else []) + (["dbg0"] if pid in ("C04", "C10") else [])
     return dict(variants=variants, jobs=jobs, floors=fl,
                 rule=rule + extra_rule, assumptions=COMMON_ASSUMPTIONS + (CON_ASSUMPTIONS[len(COMMON_ASSUMPTIONS):] if extra_rule else []),
                 watchdog_s=scale(tier, 900, 7200))
